@@ -56,6 +56,9 @@ CHECKS = {
  "C20": dict(cat="exploration", tech="runtime monitoring of the real watcher under the Go race detector with forced interleavings: verif-tag delay points make the k-th regeneration slow (overtaken by a later one), event-log based quiescence, convergence oracle against a one-shot generate, liveness and race-report monitors",
    text="Held on the schedules explored (seeded timed edit scripts around the 5 ms debounce + forced overtaking schedules) after serialising regenerations; exploration over schedules, not all interleavings. Liveness is restated as bounded progress.",
    note="Trusted: hook events only log/sleep outside locks; quiescence decided on events; wall-clock bounds only yield inconclusive.", ref="§5 C20"),
+ "C07": dict(cat="exploration", tech="runtime monitoring against reference automata: generated abstract reader/writer base classes (C++ compiled with stub subclasses, Python subclassed by reflection) driven with every reference-valid call prefix extended by every action (all (state, action) pairs for shapes <= 3/4 steps) plus random walks",
+   text="Exhaustive over (reference state, action) pairs for all protocol shapes up to 3 steps (4 in thorough) with bounded stream visits, in C++ and Python; one known finding (uint8_t state with > 127 steps).",
+   note="Trusted: reference automata written from docs/{cpp,python}/language.md with stated don't-care zones (use after close, re-reading an exhausted stream after an empty final batch, Close() while the end is pending); MATLAB not executable.", ref="§5 C07"),
 }
 NA_REASON = "check not built yet in this session (work in progress, see DESIGN.md §5 for the planned monitor)"
 
